@@ -10,5 +10,6 @@ CONSTANTS
   Groups = {}
   MaxTok = 1
   FxAll = TRUE
+  Shared = FALSE
 INVARIANTS Refines
 CHECK_DEADLOCK FALSE
